@@ -3,7 +3,6 @@
 package rtmp
 
 import (
-	"runtime"
 	"unsafe"
 	"fmt"
 	"reflect"
@@ -283,21 +282,21 @@ func TestVerif_C04_Schedules(t *testing.T) {
 						// we are inside the transport's Write, on the writer's goroutine, inside its WritePacket: if the table's lock is
 						// held now and stays held, the writer holds it across its transport write — the reader then cannot match an answer
 						// until the write returns, and with a transport that only takes more bytes once the answer has been consumed, never
-						if mu := verifC04TableLock(ep); mu != nil {
-							held := true
-							for k := 0; k < 400 && held; k++ {
-								if mu.TryLock() {
-									mu.Unlock()
-									held = false
-								} else {
-									runtime.Gosched()
-								}
-							}
-							if held {
-								m.Violationf("c04:table-lock-held-across-transport-write", rep, "while the writer is inside the transport's Write for %s tid=%v the transaction table's lock cannot be taken (400 attempts): an answer arriving now cannot be matched before the write returns", name, t)
+						// The probe is made only when the reader is known to be idle: every answer delivered so far has been decoded (the
+						// reader takes an answer off x.fifo after DecodeMessage has returned), so it sits in ReadMessage on an empty pipe and
+						// cannot be the one holding the lock — no timing is involved.  (A first version probed at any time and retried 400
+						// times; with the machine overloaded the reader was descheduled inside its own short critical section for longer
+						// than that, and the thorough tier raised this alarm on the unchanged tree.)
+						x.fifoMu.Lock()
+						readerIdle := len(x.fifo) == 0
+						x.fifoMu.Unlock()
+						if mu := verifC04TableLock(ep); mu != nil && readerIdle {
+							if !mu.TryLock() {
+								m.Violationf("c04:table-lock-held-across-transport-write", rep, "while the writer is inside the transport's Write for %s tid=%v (and the reader idle) the transaction table's lock is held: an answer arriving now cannot be matched before the write returns", name, t)
 								bad = true
 								return
 							}
+							mu.Unlock()
 							m.Count("table_lock_probed_free_inside_transport_write", 1)
 						}
 						_, ch := x.deliver(t, name, "answer")
